@@ -150,6 +150,19 @@ claim("C15", "exploration",
       "Single requester thread (multi-thread hand-off is C13/C14); virtual clock advances only when all threads block.",
       "DESIGN.md §4 C15")
 
+claim("C11", "fault_enumeration",
+      "fault-point enumeration over a recorded clean run (every transport operation and byte offsets inside packets, both "
+      "sides) + Hypothesis-generated close orders and interleavings, executed on the real Connection code over a "
+      "fault-injecting in-memory transport under a deterministic scheduler; invariant oracle at quiescence",
+      "For each workload variant a clean run numbers every read/write/poll of both streams; the thorough tier then runs "
+      "every plan (evidence: exhaustive over that workload family), the quick tier a fixed 1-in-5 stride plus all "
+      "write faults. Close orders (either side first, both at once, during an outstanding request, twice, two threads on "
+      "one side) are generated with line-level interleavings inside close/_cleanup. Hangs are detected as deadlocks by "
+      "the scheduler, not by timers.",
+      "Stream-level faults only (real socket/pipe error paths are C05); serve()/wait() are not preemption points here "
+      "because that reproduces C14's known stall windows.",
+      "DESIGN.md §4 C11")
+
 NOT_YET = "check not built yet in this revision (see DESIGN.md §8 build order)"
 
 
